@@ -319,7 +319,19 @@ func (c15Engine) Exec(t *testing.T, cc any) *simrt.Result {
 		if cache == nil && !RaceMode {
 			// the store is not there before the first operation: only the
 			// handler's own sessions can be used (and must be, from the start)
-			c.Mode = "session"
+			cp := *c
+			cp.Mode = "session"
+			cp.Clients = nil
+			for _, ops := range c.Clients {
+				var keep []c15Op
+				for _, op := range ops {
+					if op.Op != "len" { // a session has no way to ask for the size
+						keep = append(keep, op)
+					}
+				}
+				cp.Clients = append(cp.Clients, keep)
+			}
+			c = &cp
 			st.Probe("store_built_on_first_use")
 		} else if cache == nil {
 			cache = cacheOf(h)
